@@ -35,7 +35,8 @@ EXTENDS Integers, Sequences, FiniteSets, TLC
 CONSTANTS Programs,       \* set of controller programs: sequences over {"Start", "Stop", "Restart"}
           Clients,        \* client ids
           Kinds,          \* listener kinds, e.g. {"plain"} or {"plain", "tls"}
-          CloseTarget, RegisterGuard
+          CloseTarget, RegisterGuard,
+          Record          \* TRUE: keep the script (history) of the path; FALSE: design-level checking only (far fewer states)
 VARIABLES prog, ci, cpc, running, epoch, gen, cur, lst, loops, cl, registry, script
 vars == <<prog, ci, cpc, running, epoch, gen, cur, lst, loops, cl, registry, script>>
 
@@ -47,7 +48,7 @@ Init == /\ prog \in Programs /\ ci = 1 /\ cpc = "ready"
         /\ loops = {} /\ cl = [x \in Clients |-> [st |-> "new", k |-> "plain", e |-> 0]] /\ registry = {}
         /\ script = <<>>
 
-Log(s) == script' = Append(script, s)
+Log(s) == IF Record THEN script' = Append(script, s) ELSE UNCHANGED script
 Call == IF ci <= Len(prog) THEN prog[ci] ELSE "none"
 KindSeq == CHOOSE s \in [1..Cardinality(Kinds) -> Kinds] : \A i, j \in 1..Cardinality(Kinds) : i # j => s[i] # s[j]
 
